@@ -13,12 +13,13 @@ import WcModel.Proofs.GlobSpec
       { strip p | p ∈ glob fs ctx pats } = { u ∈ entries fs ∪ strip (glob …) | matchReal fs ctx pats u }
   It is FALSE on the pinned tree — witnesses below, each `decide +kernel` through the whole
   pipeline (flag transform, faithful parser port, regex, capture semantics, tree):
-    D7  a symlink to a file (or a dangling link) as the last component under `**`,
     D8  `**/` accepts a regular file,
-    G3  a second `**` group is link-tested against the wrong base (`_wcmatch.py:106-107`),
     G2  (glob side) IGNORECASE folds two entries into one seen-set key,
     D17 (glob side, see C05; D14, D16 and G6 — MATCHBASE leaking into the walker's per-part
-        regexes, `G6_fixed_witness` — which also showed here, are repaired),
+        regexes, `G6_fixed_witness` — which also showed here, are repaired, and so are
+        D7, a symlink to a file or a dangling link as the last component under `**`, and
+        G3, a second `**` group link-tested against the wrong base: `D7_fixed_witness`,
+        `G3_fixed_witness` below),
     G5 / D3 under MATCHBASE (match side: the implicit `**/` of the whole regex, `G5_D3_matchbase_witness`).
   Both sides are related to one specification (`Spec/Denotes`) by checks, not by proof: the
   capture decomposition `Re.runCap` is executable and validated, not proved (§8 of the design);
@@ -80,12 +81,19 @@ def RP : Nat := Gen.FGLOBSTAR ||| Gen.FREALPATH
 def t1 : FS := ⟨.dir [("f".toList, .file), ("lf".toList, .link (some ["f".toList])), ("dang".toList, .link none),
                        ("d".toList, .dir [("g".toList, .file)]), ("ld".toList, .link (some ["d".toList]))], []⟩
 
-/-- **D7**: `glob('**')` returns the symlink-to-file `lf` and the dangling `dang`, but
-    `globmatch(…, '**', GLOBSTAR|REALPATH)` rejects both (and accepts them for `*`). -/
-theorem D7_witness :
+/-- D7 (repaired by a `fix:` commit): `_fs_match` computed `at_end = m.end(i) == len(filename) - 1`,
+    so a `**` group that reaches the very end of a path written without trailing separator (which
+    `_match_real` adds for directories only) was not "at the end" and its last piece was link-tested:
+    `globmatch('lf', '**', GLOBSTAR|REALPATH)` was False for the symlink-to-file `lf` and for the
+    dangling `dang`, both of which `glob('**')` returns.  Now `at_end = m.end(i) >= end`; this
+    witness fails again if the defect returns.  (A symlinked DIRECTORY inside the group is still
+    rejected: `link_at_globstar_position`.) -/
+theorem D7_fixed_witness :
     gg GS "**" t1 = some ["f", "lf", "dang", "d", "d/g", "ld"] ∧
-    mm RP "**" t1 "lf" = some false ∧ mm RP "**" t1 "dang" = some false ∧
-    mm RP "*" t1 "lf" = some true ∧ mm RP "**" t1 "f" = some true ∧ mm RP "**" t1 "ld" = some true := by
+    mm RP "**" t1 "lf" = some true ∧ mm RP "**" t1 "dang" = some true ∧
+    mm RP "**/*" t1 "lf" = some true ∧
+    mm RP "*" t1 "lf" = some true ∧ mm RP "**" t1 "f" = some true ∧ mm RP "**" t1 "ld" = some true ∧
+    mm RP "**" t1 "ld/g" = some false := by
   decide +kernel
 
 /-- **D8**: `globmatch('f', '**/', GLOBSTAR|REALPATH)` is true for the regular file `f`;
@@ -106,12 +114,15 @@ theorem link_at_globstar_position :
 def t2 : FS := ⟨.dir [("a".toList, .dir [("x".toList, .dir [("l".toList, .link (some ["d".toList]))])]),
                        ("d".toList, .dir [("f".toList, .file)])], []⟩
 
-/-- **KF-G3**: with two `**` the second group is link-tested against the wrong base
-    (`if base is None` initialises `base` once, `_wcmatch.py:106-107`): `a/x/l/f` is accepted by
-    `**/x/**` although `l` is a symlinked directory at a `**` position — `a/x/**` rejects it,
-    and `glob('**/x/**')` does not return it. -/
-theorem G3_witness :
-    mm RP "**/x/**" t2 "a/x/l/f" = some true ∧ mm RP "a/x/**" t2 "a/x/l/f" = some false ∧
+/-- G3 (repaired by a `fix:` commit): `_fs_match` initialised `base` once (`if base is None`) and
+    kept extending it for later `**` groups, so with two `**` the second group's pieces were
+    lstat-ed under the wrong directory: `a/x/l/f` was accepted by `**/x/**` although `l` is a
+    symlinked directory at a `**` position — `a/x/**` rejects it and `glob('**/x/**')` does not
+    return it.  Now `base` is recomputed from the group's own start for every group
+    (`C04cap.real_link_rule_all`); this witness fails again if the defect returns. -/
+theorem G3_fixed_witness :
+    mm RP "**/x/**" t2 "a/x/l/f" = some false ∧ mm RP "a/x/**" t2 "a/x/l/f" = some false ∧
+    mm RP "**/x/**" t2 "a/x/l" = some true ∧
     gg GS "**/x/**" t2 = some ["a/x/", "a/x/l"] := by decide +kernel
 
 /-- r/ = { a, A } -/
